@@ -28,6 +28,7 @@ struct event
     std::vector<sz> bin;
     bool coords_intact = true;     // dens event: coordinates still hold what the map wrote
     bool dens_intact = true;       // dens event: the density buffer still holds what the map wrote with the coordinates
+    bool same_map = true;          // dens event: asked of the map object (or a later copy of it) that computed this point's coordinates
     T value = T();                 // integrand event: returned value
     bool touched = false;          // integrand event: requested the weight itself
 };
@@ -41,6 +42,7 @@ struct world
     sz calls = 0;
     std::vector<T> last_coords;    // what the map wrote last
     std::vector<T> last_dens;
+    long latest_coords_pos = -2;   // log position of the most recent coordinates request
 };
 template <typename T> static world<T>& W() { static world<T> w; return w; }
 
@@ -94,6 +96,10 @@ struct fn
 template <typename T>
 struct map_fn
 {
+    // state of the map's own (a map may cache between its two requests): the log position of the last
+    // coordinates request this object served; copies made afterwards inherit it
+    mutable long served_coords_pos = -1;
+
     T operator()(sz channel, std::vector<T> const& rn, std::vector<T>& coords, std::vector<sz> const& enabled,
         std::vector<T>& dens, hep::multi_channel_map action) const
     {
@@ -105,6 +111,7 @@ struct map_fn
             e.kind = ev_coords;
             for (sz i = 0; i != coords.size(); ++i) coords[i] = rn[i] * T(0.5) + T(0.25) * T(channel % 2);
             w.last_coords = coords;
+            served_coords_pos = w.latest_coords_pos = static_cast<long>(w.log.size());
             // the map may fill the densities already now ("can be calculated at this time point")
             // (slots of disabled channels are marked with NaN: nobody may rely on them, and nobody may clean them up)
             for (sz i = 0; i != dens.size(); ++i)
@@ -120,6 +127,7 @@ struct map_fn
         for (sz i = 0; e.coords_intact && i != coords.size(); ++i) e.coords_intact = vf::same_bits(coords[i], w.last_coords[i]);
         e.dens_intact = dens.size() == w.last_dens.size();
         for (sz i = 0; e.dens_intact && i != dens.size(); ++i) e.dens_intact = vf::same_bits(dens[i], w.last_dens[i]);
+        e.same_map = served_coords_pos == w.latest_coords_pos;
         // the densities stay as they were filled with the coordinates
         w.log.push_back(e);
         return T(2);
@@ -193,6 +201,7 @@ static void check_log(report& r, cfg const& c, sz n, sz dims, hep::vegas_pdf<T> 
             for (sz k = 0; k != dims; ++k) if (!vf::same_bits(de.rn[k], ce.rn[k])) { fail("buffers-changed", "random numbers changed between the two map calls"); return; }
             if (!de.coords_intact) { fail("buffers-changed", "coordinates changed between the two map calls"); return; }
             if (!de.dens_intact) { fail("buffers-changed", "the density buffer changed between the two map calls"); return; }
+            if (!de.same_map) { fail("densities-asked-of-another-map-object", "the densities were requested from a map object that had not computed this point's coordinates (a map may keep state between its two requests)"); return; }
             if (de.enabled != enabled) { fail("enabled-list-wrong", "enabled channels passed with the densities request: " + vf::join(de.enabled)); return; }
         }
     }
@@ -229,7 +238,7 @@ static void enumerate(report& r)
             {
                 r.eval();
                 auto& w = W<T>();
-                w.log.clear(); w.behaviour.clear(); w.touch.clear(); w.calls = 0;
+                w.log.clear(); w.behaviour.clear(); w.touch.clear(); w.calls = 0; w.latest_coords_pos = -2;
                 auto& table = vf::script_engine::table();
                 table.clear();
                 for (sz k = 0; k != n; ++k)
